@@ -657,6 +657,11 @@ func (m *farmMon) applyTx(br *rig.BlockRecord, tx *rig.TxRecord, tag *farmTag, p
 				m.run.Count("stake-accepted-outside-lifetime", 1)
 				m.run.Note("stake accepted in phase %s at height %d on %s", ph, h, p.ID)
 			}
+			if ph == "not-started" {
+				// rewards are budgeted for the blocks from the start height on: a stake that is in before them is owed
+				// a span the budget does not cover, and the last withdrawals fail
+				m.viol("C05", "stake-accepted-before-the-start-height", detail, "stake into %s accepted at height %d, the pool starts at %d", p.ID, h, p.Start)
+			}
 			if ph == "destroyed" {
 				m.viol("C06", "operation-accepted-on-destroyed-pool:stake", detail, "stake into %s accepted at height %d although the pool had been destroyed", p.ID, h)
 			}
@@ -1983,8 +1988,31 @@ func (w *farmWorkload) Next(block int) []rig.Tx {
 	// every 17 blocks a short-lived editable pool, so that pools keep falling due (and being destroyed in the block
 	// they fall due, see block) over the whole history
 	var extra []rig.Tx
+	// every 17 blocks the running editable pool that would end last gets a rate under which what is left lasts about two more
+	// blocks (no top-up): its end moves in front of the other pools' ends
+	if block%17 == 14 {
+		var last *farmtypes.FarmPool
+		for i := range v.active {
+			p := &v.active[i]
+			if p.Editable && g.acct(p.Creator) != nil && len(p.Rules) > 0 && (last == nil || p.EndHeight > last.EndHeight) {
+				last = p
+			}
+		}
+		if last != nil && last.EndHeight > v.h+3 {
+			var rpb sdk.Coins
+			for _, ru := range last.Rules {
+				f := (last.EndHeight - v.h) / 2 // what is left lasts about two more blocks
+				if f < 2 {
+					f = 2
+				}
+				rpb = rpb.Add(sdk.NewCoin(ru.Reward, ru.RewardPerBlock.MulRaw(f)))
+			}
+			extra = append(extra, g.r.Mk(g.acct(last.Creator), &farmTag{Kind: "adjust", Note: "shorten-the-longest"}, &farmtypes.MsgAdjustPool{PoolId: last.Id, RewardPerBlock: rpb, Creator: last.Creator}))
+			g.run.Count("farm-longest-pool-shortened", 1)
+		}
+	}
 	if block%17 == 11 && len(v.s.Pools) < 16 {
-		if tx, ok := g.mkCreate(v, "residue", 3+g.run.Rng.Intn(5), int64(g.run.Rng.Intn(2)), 1, true); ok {
+		if tx, ok := g.mkCreate(v, "residue", 3+g.run.Rng.Intn(10), int64(g.run.Rng.Intn(2)), 1, true); ok {
 			extra = append(extra, tx)
 		}
 	}
